@@ -156,6 +156,20 @@ Definition run (fields : list str) : list str :=
             end
         | None => BAD
         end
+      else if tag_is tag [108;105;115;116;110] then
+        (* "listn": as "list", file names matched by the glob language *)
+        match take_list take_supp args with
+        | Some (l, r) =>
+            match take_list take_emsg_g r with
+            | Some (es, _) =>
+                match list_run pm_names l es with
+                | Some (l', bs) => map str_of_bool bs ++ flags_out l'
+                | None => FUEL
+                end
+            | None => BAD
+            end
+        | None => BAD
+        end
       else if tag_is tag [108;111;103;103;101;114] then
         match args with
         | g :: r0 =>
